@@ -9,7 +9,14 @@ R33.3 every name handed to Scope::add_name at the symbol-creating sites of symbo
 R33.4 terminal names built from punctuation: the replacement table only contains identifier characters and the assembled
       name is returned unchanged only after it was tested to contain an alphanumeric character and not to start with a
       digit.
-Validity of the other identifiers (string computations in NamingHelper) is NOT decided."""
+R33.5 keyword escaping (NamingHelper): (a) the keyword table consulted by is_rust_keyword contains every strict and reserved
+      keyword of the Rust reference (edition 2024); (b) a name is given the raw-identifier prefix `r#` only on paths that
+      excluded the keywords that cannot be raw identifiers (crate, self, Self, super); (c) both case converters
+      (to_lower_snake_case, to_upper_camel_case) return through escape_rust_keyword on every path (`Self` is a keyword that
+      starts with an upper-case letter).
+R33.6 the case converters test for the degenerate result (no alphanumeric character): `_` and `__` are accepted
+      non-terminal names.  Both converters lack the test today: known finding D18.
+Validity of the other identifiers (remaining string computations in NamingHelper) is NOT decided."""
 from ..callgraph import CallGraph
 from ..dataflow import operand_term, raw_operand_place, single_def, forward_derived
 from .common import PA, where, short, fn_key, recv_fields, all_places
@@ -73,6 +80,8 @@ def check(ctx):
                           "a name is added to a scope without make_unique_name (%s)" % why, where(b, c.line))
     ctx.require_floor("R33.3", "add_name_sites", n, 2)
     r33_4(ctx, facts)
+    r33_5(ctx, facts)
+    r33_6(ctx, facts)
 
 
 def r33_4(ctx, facts):
@@ -127,3 +136,148 @@ def r33_4(ctx, facts):
                   "only (e.g. the euro sign) is named `_`, which is not a valid Rust identifier (the generated node-kind enum does not "
                   "compile)" % ("contains an alphanumeric character" if not has_alnum else "does not start with a digit"),
                   where(g, line))
+
+
+# The Rust Reference, "Keywords": strict keywords (incl. 2018+ async/await/dyn), reserved keywords (incl. 2018 `try`, 2024 `gen`)
+RUST_KEYWORDS = ("as break const continue crate else enum extern false fn for if impl in let loop match mod move mut pub ref "
+                 "return self Self static struct super trait true type unsafe use where while async await dyn "
+                 "abstract become box do final macro override priv typeof unsized virtual yield try gen").split()
+# "Raw identifiers": `crate`, `self`, `super`, `Self` (and `_`) cannot be raw identifiers
+NON_RAW = {"crate", "self", "Self", "super"}
+NH = "parol::generators::naming_helper::NamingHelper::"
+
+
+def _named_tables(facts, bodies):
+    out = {}
+    for b in bodies:
+        for blk in b.blocks:
+            for st in blk["s"]:
+                if st[0] == "a" and st[2][0] == "use" and st[2][1][0] == "k" and st[2][1][3] \
+                        and st[2][1][1].replace("'static ", "") == "&[&str]":
+                    name = st[2][1][3]
+                    try:
+                        v = facts.const(name)
+                    except Exception:
+                        v = None
+                    if isinstance(v, list):
+                        out[name] = v
+    return out
+
+
+def _const_strs(facts, b, c):
+    """string constants / constant string tables among the arguments of a call"""
+    out = set()
+    for o in c.args:
+        t = operand_term(b, o)
+        if t[0] != "const":
+            continue
+        if isinstance(t[2], str):
+            out.add(t[2])
+        elif t[3]:
+            try:
+                v = facts.const(t[3])
+            except Exception:
+                v = None
+            if isinstance(v, list):
+                out |= set(v)
+    return out
+
+
+def r33_5(ctx, facts):
+    from ..artefact.rx import decode_fmt_template
+    from .common import transitive_control_deps, control_dependence_no_errors
+    isk = facts.body(NH + "is_rust_keyword")
+    tabs = _named_tables(facts, facts.family(isk))
+    kw = set()
+    for v in tabs.values():
+        kw |= set(v)
+    missing = [k for k in RUST_KEYWORDS if k not in kw]
+    ctx.check(bool(tabs) and not missing, "R33.5", "keyword-table|complete",
+              "the table consulted by is_rust_keyword (%s, %d entries) contains all %d strict/reserved Rust keywords"
+              % (sorted(short(t) for t in tabs), len(kw), len(RUST_KEYWORDS)),
+              "the keyword table consulted by is_rust_keyword lacks %s: a non-terminal of that name yields a member / method "
+              "name that is a bare keyword" % missing, where(isk))
+    # (b) every place that builds an `r#` name
+    n = 0
+    for b in facts.in_crate(PA):
+        if not (b.module or "").startswith("parol::generators"):
+            continue
+        for bi, blk in enumerate(b.blocks):
+            tmpl = None
+            for st in blk["s"]:
+                if st[0] == "a" and st[2][0] == "use" and st[2][1][0] == "k" and isinstance(st[2][1][2], str) \
+                        and st[2][1][1].startswith("&[u8;"):
+                    try:
+                        pieces = decode_fmt_template(st[2][1][2])
+                    except Exception:
+                        continue
+                    if len(pieces) > 1 and pieces[0] == ("lit", "r#") and pieces[1] == ("arg",):
+                        tmpl = st[3]
+            if tmpl is None:
+                continue
+            n += 1
+            cd = control_dependence_no_errors(b)
+            excluded = set()
+            for a, succ, k in transitive_control_deps(b, bi, cd=cd):
+                if not k or k[0] != "call":
+                    continue
+                c, neg = k[1], k[2]
+                vals = [v for v, t in b.switch_edges(a) if t == succ]
+                truth = any(v != 0 for v in vals)
+                if neg:
+                    truth = not truth
+                nm = (c.path or "").split("::")[-1]
+                if (nm in ("contains", "eq") and not truth) or (nm == "ne" and truth):
+                    excluded |= _const_strs(facts, b, c)
+            rest = sorted((NON_RAW & kw) - excluded)
+            ctx.check(not rest, "R33.5", "%s|raw-prefix-excludes-non-raw-keywords" % fn_key(b, facts),
+                      "the `r#` prefix is applied only after %s were excluded" % sorted(NON_RAW),
+                      "the `r#` prefix is also applied to %s, which cannot be raw identifiers: a non-terminal named `self`, "
+                      "`super` or `crate` yields `r#self` etc. in the generated code, which does not compile" % rest,
+                      where(b, tmpl))
+    ctx.require_floor("R33.5", "raw_prefix_sites", n, 1)
+    # (c) the case converters return through escape_rust_keyword
+    for fn in ("to_lower_snake_case", "to_upper_camel_case"):
+        b = facts.body(NH + fn)
+        bad = []
+        ndef = 0
+        for d in b.defs(0):
+            ndef += 1
+            if d[0] == "call" and d[3].path == NH + "escape_rust_keyword":
+                continue
+            bad.append(b.line_of_block(d[1]))
+        ctx.check(bool(ndef) and not bad, "R33.5", "%s|returns-through-escape" % fn,
+                  "every return value of %s is the result of escape_rust_keyword" % fn,
+                  "%s returns a name that did not pass escape_rust_keyword (lines %s): %s" % (
+                      fn, bad, "`Self` is a keyword that starts with an upper-case letter; a non-terminal named `self` yields "
+                      "`pub struct Self`" if fn == "to_upper_camel_case" else "keyword member names are emitted bare"),
+                  where(b))
+
+
+def r33_6(ctx, facts):
+    """names made of underscores only: PAR identifiers match [a-zA-Z_][a-zA-Z0-9_]*, so `_` and `__` are accepted non-terminal
+    names; the case converters drop / collapse underscores, so each needs an explicit test for the degenerate result
+    (empty, or `_`, which is a reserved identifier). Accepted tests: is_empty / contains|any|all over a char predicate /
+    comparison with a string constant made of underscores."""
+    from .common import closure_of_arg_any
+    for fn in ("to_lower_snake_case", "to_upper_camel_case"):
+        b = facts.body(NH + fn)
+        tests = []
+        for c in b.calls():
+            nm = (c.path or "").split("::")[-1]
+            if nm == "is_empty":
+                tests.append("is_empty")
+            elif nm in ("contains", "any", "all", "trim_matches", "trim_start_matches", "find"):
+                cl = closure_of_arg_any(facts, b, c)
+                names = {(x.path or "").split("::")[-1] for x in cl.calls()} if cl is not None else set()
+                if names & {"is_alphanumeric", "is_alphabetic", "is_ascii_alphanumeric", "is_ascii_alphabetic"}:
+                    tests.append(nm + "(alphanumeric)")
+            elif nm in ("eq", "ne"):
+                if any(s and set(s) <= {"_"} or s == "" for s in _const_strs(facts, b, c)):
+                    tests.append("== \"_\"")
+        ctx.check(bool(tests), "R33.6", "%s|degenerate-name" % fn,
+                  "%s tests its result for the degenerate (empty / underscore-only) case: %s" % (fn, tests),
+                  "%s never tests for a result without an alphanumeric character: the accepted non-terminal names `_` / `__` "
+                  "yield %s in the generated code, which does not compile (probe: notes/repro/probe33_underscore_nt.par)"
+                  % (fn, "the method / member name `_`" if fn == "to_lower_snake_case" else "an empty type name (`pub struct  <'t>`)"),
+                  where(b))
